@@ -116,6 +116,16 @@ impl<R: Read + Seek> ReadBox<&mut R> for MetaBox {
             // Get box header.
             let header = BoxHeader::read(reader)?;
             let BoxHeader { name, size: s } = header;
+            if s > size {
+                return Err(Error::InvalidData(
+                    "meta box contains a box with a larger size than it",
+                ));
+            }
+            if s == 0 {
+                return Err(Error::InvalidData(
+                    "meta box contains a box with size 0",
+                ));
+            }
 
             match name {
                 BoxType::HdlrBox => {
